@@ -121,6 +121,23 @@ def cargo_build():
     return errs
 
 
+# source-expression ties (Lemmas/SrcTie/*): which translated comprehensions each property's model functions run
+_T = 'Fips204/Lemmas/SrcTie/'
+TIES = {
+    'C01': ['Basic', 'Keygen', 'Sign', 'Verify', 'Derive', 'Serialise', 'Helpers', 'Ntt', 'Codec', 'Sampling'],
+    'C02': ['Basic', 'Verify', 'Helpers', 'Ntt', 'Codec', 'Sampling'],
+    'C03': ['Basic', 'Sign', 'Helpers', 'Ntt', 'Sampling'],
+    'C04': ['Basic', 'Keygen', 'Serialise', 'Ntt'],
+    'C05': ['Basic', 'Verify', 'Helpers', 'Codec'],
+    'C08': ['Basic', 'Helpers', 'Codec'],
+    'C09': ['Basic', 'Verify', 'Serialise', 'Helpers', 'Ntt', 'Codec'],
+    'C10': ['Basic', 'Helpers', 'Codec'],
+    'C11': ['Basic', 'Keygen', 'Derive', 'Ntt'],
+    'C13': ['Basic', 'Keygen', 'Sign', 'Verify', 'Derive', 'Serialise', 'Helpers', 'Ntt', 'Codec', 'Sampling'],
+    'C18': ['Basic', 'Keygen', 'Sign', 'Verify', 'Derive', 'Serialise', 'Ntt'],
+}
+
+
 class Build:
     """result of preparing one property's obligations"""
 
@@ -133,6 +150,9 @@ class Build:
         self.companions = sorted(os.path.join(d, f) for f in os.listdir(os.path.join(LEAN, d))
                                  if re.fullmatch(re.escape(base[:-5]) + r'[a-z]\.lean', f))
         self.modules = [self.module] + [c[:-5].replace('/', '.') for c in self.companions]
+        # tie modules: theorems that the model runs the expressions translated from the current source
+        self.tie_files = [_T + t + '.lean' for t in TIES.get(prop, []) if os.path.exists(os.path.join(LEAN, _T + t + '.lean'))]
+        self.modules += [f[:-5].replace('/', '.') for f in self.tie_files]
         self.translator = None
         self.lake_log = ''
         self.lean_errs = []
@@ -154,6 +174,9 @@ class Build:
                 b.append(f"translator:{k}: {v}")
         for f, ln, msg in self.lean_errs:
             b.append(f"{f}:{ln}: {msg.splitlines()[0] if msg else ''}")
+        if self.lean_errs:
+            for k, v in ((self.translator or {}).get('Exprs.lean') or {}).get('unsupported', {}).items():
+                b.append(f"translator:Exprs:{k}: {v}")
         for n, ax in self.bad_axioms.items():
             b.append(f"axioms:{n}: {ax}")
         for h in self.grep_hits:
@@ -176,7 +199,7 @@ def prepare(prop, module_file, extra_targets=()):
             MODEL_AVAILABLE = b.model_ok
             if not b.model_ok:
                 b.lean_errs += [e for e in lean_errors(log2) if e not in b.lean_errs]
-        b.theorems = [t for f in [module_file] + b.companions for t in theorems_of(f)]
+        b.theorems = [t for f in [module_file] + b.companions + b.tie_files for t in theorems_of(f)]
         if rc == 0:
             b.axioms = axiom_audit(b.modules, [n for n, _ in b.theorems])
             for n, ax in b.axioms.items():
@@ -444,7 +467,13 @@ def run_and_judge(rep, cases, model_every=1, rust=('checked', 'fast')):
                 a, b2 = outs['rust_' + prof][i], mo[mode][j]
                 if canon(a) != canon(b2):
                     ok = False
-                    rep.violation('correspondence', [c['line']], {'tag': c['tag'], 'rust_' + prof: a[:300], 'model_' + mode: b2[:300]}, False)
+                    # a disagreement is re-judged by the independent oracle when the case carries one (evaluated only now: it is slow)
+                    lw = c.get('lazy_want')
+                    w = lw() if lw else None
+                    if w is not None and a != w:
+                        rep.violation('implementation-vs-oracle', [c['line']], {'profile': prof, 'tag': c['tag'], 'output': a[:300], 'oracle': f'expected {w[:80]} (reference evaluated after the model disagreed)'}, True)
+                    else:
+                        rep.violation('correspondence', [c['line']], {'tag': c['tag'], 'rust_' + prof: a[:300], 'model_' + mode: b2[:300]}, False)
                     break
         if ok:
             rep.nontrivial.add((c['tag'], hashlib.sha256(c['line'].encode()).hexdigest()[:16]))
